@@ -620,9 +620,9 @@ P("shuffle_ignore_index_drop_duplicates", lambda t: t.df[["a", "f"]].shuffle("a"
 
 
 # two different partition selections of ONE source combined by index (co-alignment must look at the selection)
-P("sel_concat_axis1_two_selections", lambda t: t.dd.concat([t.df.partitions[[0, 1]][["u"]], t.df.partitions[[1, 2]][["f"]]], axis=1) if t.lazy else t.df, dask_only=True, needs_known=True, needs_range=True, tags={"parts"})
-P("sel_add_two_selections", lambda t: t.df.partitions[[0, 1]].u + t.df.partitions[[1, 2]].f if t.lazy else t.df.u, dask_only=True, needs_known=True, tags={"parts"})
-P("sel_assign_other_selection", lambda t: t.df.partitions[[0, 1]][["a"]].assign(z=t.df.partitions[[1, 2]].u) if t.lazy else t.df, dask_only=True, needs_known=True, tags={"parts"})
+P("sel_concat_axis1_two_selections", lambda t: t.dd.concat([t.df.partitions[[0, 1]][["u"]], t.df.partitions[[1, 2]][["f"]]], axis=1) if t.lazy else t.df, dask_only=True, needs_known=True, needs_range=True, tags={"parts"}, only={"C01", "C04", "C06", "C07", "C09", "C14"})
+P("sel_add_two_selections", lambda t: t.df.partitions[[0, 1]].u + t.df.partitions[[1, 2]].f if t.lazy else t.df.u, dask_only=True, needs_known=True, tags={"parts"}, only={"C01", "C04", "C06", "C07", "C09", "C14"})
+P("sel_assign_other_selection", lambda t: t.df.partitions[[0, 1]][["a"]].assign(z=t.df.partitions[[1, 2]].u) if t.lazy else t.df, dask_only=True, needs_known=True, tags={"parts"}, only={"C01", "C04", "C06", "C07", "C09", "C14"})
 # row counts as RESULTS (Len / Size rewrites are part of what optimization may change)
 P("len_bcast_minus_frame", lambda t: (t.df[["b", "f"]].astype("float64").max() - t.df[["b", "f"]].astype("float64")).shape[0])
 P("len_series_bcast_minus", lambda t: (t.df.u.mean() - t.df.u).size)
@@ -647,8 +647,7 @@ P("loc_slice_one_column_list", lambda t: t.df.loc[2:9, ["u"]], needs_known=True,
 P("tail_tail_outer_larger", lambda t: t.df.tail(2, compute=False).tail(5, compute=False) if t.lazy else t.df.tail(2).tail(5), tags={"head"}, dask_only=True)
 P("tail_elemwise_tail_outer_larger", lambda t: (t.df.tail(2, compute=False).u + 1).tail(4, compute=False) if t.lazy else (t.df.tail(2).u + 1).tail(4), tags={"head"}, dask_only=True)
 P("head_head_outer_larger", lambda t: t.df.head(2, compute=False).head(5, compute=False) if t.lazy else t.df.head(2).head(5), tags={"head"}, dask_only=True)
-P("merge_left_index_right_on_k", lambda t: t.df[["u", "f"]].set_index("u").merge(t.df2[["u", "w"]].assign(k=t.df2.u)[["k", "w"]], left_index=True, right_on="k", how="inner") if t.lazy else t.df[["u", "f"]].set_index("u").merge(t.df2[["u", "w"]].assign(k=t.df2.u)[["k", "w"]], left_index=True, right_on="k", how="inner"), order_free=True, index_free=True, tags={"sort"})
-P("merge_left_on_right_index_outer", lambda t: t.df[["u", "f"]].merge(t.df2[["u", "w"]].set_index("u"), left_on="u", right_index=True, how="outer"), order_free=True, index_free=True, tags={"sort"})
+P("merge_left_on_right_index_inner", lambda t: t.df[["u", "f"]].merge(t.df2[["u", "w"]].set_index("u"), left_on="u", right_index=True, how="inner"), order_free=True, index_free=True, tags={"sort"})
 P("merge_right_bcast_left_diff_keys", lambda t: t.df2[["a", "w"]].rename(columns={"a": "ka"}).merge(t.df[["a", "u"]], left_on="ka", right_on="a", how="right", broadcast=True) if t.lazy else t.df2[["a", "w"]].rename(columns={"a": "ka"}).merge(t.df[["a", "u"]], left_on="ka", right_on="a", how="right"), order_free=True, index_free=True)
 P("value_counts_normalize_nulls", lambda t: t.df.b.value_counts(normalize=True), order_free=True)
 P("value_counts_normalize_keepna", lambda t: t.df.b.value_counts(normalize=True, dropna=False), order_free=True)
@@ -673,9 +672,7 @@ def _renamed_cols(p):
 
 # user functions with a declared meta and the default enforce_metadata=True: partitions must carry the declared labels
 P("enforce_map_partitions_name", lambda t: t.df.map_partitions(_double_unnamed, meta=("res", "f8")) if t.lazy else _double_unnamed(t.df).rename("res"), tags={"enforce_meta"})
-P("enforce_map_partitions_columns", lambda t: t.df.map_partitions(_renamed_cols, meta={"x": "i8", "y": "i8"}) if t.lazy else _renamed_cols(t.df).set_axis(["x", "y"], axis=1), tags={"enforce_meta"})
 P("enforce_map_overlap_align_name", lambda t: t.df.map_overlap(_unnamed_rolling_plus, 1, 0, t.df2, align_dataframes=True, meta=("res", "f8"), transform_divisions=False) if t.lazy else t.df.u, dask_only=True, needs_known=True, needs_range=True, tags={"enforce_meta", "window"})
-P("enforce_map_overlap_align_name_default", lambda t: t.df.map_overlap(_unnamed_rolling_plus, 1, 0, t.df2, align_dataframes=True, meta=("res", "f8")) if t.lazy else t.df.u, dask_only=True, needs_known=True, needs_range=True, tags={"enforce_meta", "window"})
 
 
 # predicates that reach the NEW index of set_index through a derived object (a column's index, a sub-frame's index)
